@@ -222,6 +222,21 @@ impl IntoSqlBuilder for NegList {
     }
 }
 
+fn cast_type_of(name: &str) -> Option<&'static str> {
+    match name {
+        "int" => Some("integer"),
+        "uint" => Some("bigint"),
+        "float" => Some("double precision"),
+        "double" => Some("double precision"),
+        "string" => Some("text"),
+        "bool" => Some("boolean"),
+        "bytes" => Some("bytea"),
+        "timestamp" => Some("timestamp"),
+        "duration" => Some("interval"),
+        _ => None,
+    }
+}
+
 impl IntoSqlBuilder for Member {
     fn into_sql_builder(&self) -> Result<Box<dyn SqlBuilder>, ToSqlError> {
         let primary_builder = self.primary.into_sql_builder()?;
@@ -291,16 +306,38 @@ impl IntoSqlBuilder for Member {
                     })
                 }
                 MemberPrime::Call { call } => {
+                    // the parser stores call arguments in reverse order
+                    let mut args = call
+                        .node()
+                        .exprs
+                        .iter()
+                        .rev()
+                        .map(|a| a.node().into_sql_builder())
+                        .collect::<ToSqlResult<Vec<_>>>()?;
+
+                    // a type constructor at the head of a chain is still a cast
+                    if i == 0 && args.len() <= 1 {
+                        if let Primary::Ident(ident) = self.primary.node() {
+                            if let Some(cast_type) = cast_type_of(ident.0.as_str()) {
+                                let value: Box<dyn SqlBuilder> = if args.is_empty() {
+                                    StaticSqlBuilder::boxed("NULL")
+                                } else {
+                                    args.remove(0)
+                                };
+                                builder = Box::new(ParensBuilder {
+                                    inner: Box::new(CastBuilder {
+                                        value,
+                                        cast_type: StaticSqlBuilder::boxed(cast_type),
+                                    }),
+                                });
+                                continue;
+                            }
+                        }
+                    }
+
                     builder = Box::new(FunctionCallBuilder {
                         primary: builder,
-                        // the parser stores call arguments in reverse order
-                        args: call
-                            .node()
-                            .exprs
-                            .iter()
-                            .rev()
-                            .map(|a| a.node().into_sql_builder())
-                            .collect::<ToSqlResult<Vec<_>>>()?,
+                        args,
                     });
                 }
                 MemberPrime::ArrayAccess { access } => {
